@@ -268,7 +268,8 @@ def run(ctx) -> None:
     r1.check(same_block and norm(ab[0].args[0]) == f"{klp}[{j}]" and absorber != f"{klp}[{j}]" and absorber.startswith(f"{klp}["),
              "every excluded point is absorbed by its partner in the same guarded block", ex, enclosing(epm, app[0], ast.stmt),
              f"index `{j}` is put on the exclusion list but `{norm1(ab[0])}` absorbs a different element: weight is lost or duplicated")
-    once = [x for x in enclosing_all(epm, ab[0], ast.If) if norm(x.test) == f"{j} not in {excl}"]
+    ES = Sem(idx, ex)
+    once = [1 for t_, p_, _ in ES.conditions(enclosing(epm, ab[0], ast.stmt), resolve=False) if t_ == f"{j} in {excl}" and p_ is False]
     r1.check(bool(once), "a point already excluded is not absorbed a second time", ex, enclosing(epm, ab[0], ast.stmt),
              f"`{norm1(ab[0])}` is not guarded by `{j} not in {excl}`: a K-point can be absorbed by two partners and its weight counted twice")
     dl = [s for s in stmts(ex.node) if isinstance(s, ast.Delete)]
